@@ -200,7 +200,7 @@ def _ccm_parts(P, nonce, m, aad, tl):
     flags = (64 if aad else 0) | (((tl - 2) // 2) << 3) | (L - 1)
     B = bytes([flags]) + nonce + len(m).to_bytes(L, "big")
     if aad:
-        B += pad0(len(aad).to_bytes(2, "big") + aad)
+        B += pad0((len(aad).to_bytes(2, "big") if len(aad) < 0xFF00 else b"\xff\xfe" + len(aad).to_bytes(4, "big")) + aad)
     B += pad0(m)
     x = bytes(16)
     for b in blocks(B):
